@@ -285,7 +285,13 @@ NEGATIVE = [('print -5 println -1.5', '-5 -1.5\n'),
             ('print 1 print -2 println -3', '1 -2 -3\n'),
             ('define f with q begin return -1 end println [f 0]', '-1\n'),
             ('assign v -7 println v', '-7\n'),
-            ('define m -4 println m', '-4\n')]
+            ('define m -4 println m', '-4\n'),
+            # a printf that cannot be completed writes nothing: the values
+            # collected for it so far are not text the script asked for
+            ('assign n 0 println "a" printf "t={} u={}" 120 {120 / n} '
+             'println "never"', 'a\n'),
+            ('define f with q begin return {1 / q} end print "x" '
+             'printf "{} {} {}" 1 2 [f 0]', 'x')]
 
 
 def check_negative(acc, text, want):
